@@ -12,6 +12,9 @@ import (
 
 func init() { vh.Register("C07", isolated("C07", runC07)) }
 
+// the one remaining gap around list requests (they panicked before fix 985f10a): rejected with a positioned error
+const sigListRequest = "C07 documented language not accepted: listRequest on a service method or entity query"
+
 const mainFile = "foo/v1/a.j5s"
 const mainProto = "foo/v1/a.j5s.proto"
 
@@ -307,17 +310,18 @@ func runC07(cfg *vh.Config) error {
 			res.Count("abs_" + o.Verdict)
 			switch o.Verdict {
 			case "VPanic":
-				if !a.ListReq { // the list_request panic is judged (and recorded) in the declaration stream
-					res.Fail(vh.Failure{Case: caseNo, Stream: "abs", Sig: fmt.Sprintf("C07 %s alone in a file: panic %s", absKind(a.Kind), errClass(o.ErrText)), Clause: "never panics", Input: in, Got: o.ErrText})
-				}
+				res.Fail(vh.Failure{Case: caseNo, Stream: "abs", Sig: fmt.Sprintf("C07 %s alone in a file: panic %s", absKind(a.Kind), errClass(o.ErrText)), Clause: "never panics", Input: in, Got: o.ErrText})
 			case "VOther":
 				res.Fail(vh.Failure{Case: caseNo, Stream: "abs", Sig: fmt.Sprintf("C07 %s alone in a file: %s", absKind(a.Kind), errClass(o.ErrText)), Clause: "generated file parses (harness expectation) / no hang", Input: in, Got: o.ErrText})
 			case "VLinkErr":
 				res.Fail(vh.Failure{Case: caseNo, Stream: "abs", Sig: fmt.Sprintf("C07 %s alone in a file: link error in isolation", absKind(a.Kind)), Clause: "accepted and links without depending on unrelated declarations", Input: in, Got: o.ErrText})
 			case "VConvErr":
-				if a.InLang {
+				if a.InLang && a.ListReq {
+					res.Fail(vh.Failure{Case: caseNo, Stream: "abs", Sig: sigListRequest, Clause: "every package within the documented language is accepted", Input: in, Got: o.ErrText})
+				} else if a.InLang {
 					res.Fail(vh.Failure{Case: caseNo, Stream: "abs", Sig: fmt.Sprintf("C07 %s of the documented language rejected (%s)", absKind(a.Kind), errClass(o.ErrText)), Clause: "every package within the documented language is accepted", Input: in, Got: o.ErrText})
 				}
+				checkPositions(res, caseNo, "abs", "declaration conversion error", o.Pos, content, mainFile, in)
 			case "VOk":
 				if len(corpus) < 500 {
 					corpus = append(corpus, content)
@@ -399,15 +403,15 @@ func runC07(cfg *vh.Config) error {
 			res.Count("file_" + o.Verdict)
 			switch o.Verdict {
 			case "VPanic":
-				if !fc.ListReq {
-					res.Fail(vh.Failure{Case: caseNo, Stream: "file", Sig: "C07 file of several declarations: panic " + errClass(o.ErrText), Clause: "never panics", Input: in, Got: o.ErrText})
-				}
+				res.Fail(vh.Failure{Case: caseNo, Stream: "file", Sig: "C07 file of several declarations: panic " + errClass(o.ErrText), Clause: "never panics", Input: in, Got: o.ErrText})
 			case "VOther":
 				res.Fail(vh.Failure{Case: caseNo, Stream: "file", Sig: "C07 file of several declarations: " + errClass(o.ErrText), Clause: "generated file parses (harness expectation) / no hang", Input: in, Got: o.ErrText})
 			case "VLinkErr":
 				res.Fail(vh.Failure{Case: caseNo, Stream: "file", Sig: "C07 file of several declarations: link error (" + errClass(o.ErrText) + ")", Clause: "accepted and links", Input: in, Got: o.ErrText})
 			case "VConvErr":
-				if fc.InLang && !fc.ListReq {
+				if fc.InLang && fc.ListReq {
+					res.Fail(vh.Failure{Case: caseNo, Stream: "file", Sig: sigListRequest, Clause: "every package within the documented language is accepted", Input: in, Got: o.ErrText})
+				} else if fc.InLang {
 					res.Fail(vh.Failure{Case: caseNo, Stream: "file", Sig: "C07 file of in-language declarations rejected (" + errClass(o.ErrText) + ")", Clause: "every package within the documented language is accepted", Input: in, Got: o.ErrText})
 				}
 				checkPositions(res, caseNo, "file", "file conversion error", o.Pos, fc.Files, mainFile, in)
@@ -456,7 +460,12 @@ func runC07(cfg *vh.Config) error {
 			if strings.HasPrefix(c.Err.Error(), "resolve file") {
 				kind = "link error in isolation"
 			}
-			res.Fail(vh.Failure{Case: caseNo, Stream: "decl", Sig: fmt.Sprintf("C07 decl %s: %s (%s)", d.Name, kind, truncate(strings.TrimPrefix(errClass(c.Err.Error()), "loadPackage I: loadLocalPackage I: "), 60)), Clause: "every package within the documented language is accepted and links", Input: in, Got: c.Err.Error()})
+			sig := fmt.Sprintf("C07 decl %s: %s (%s)", d.Name, kind, truncate(strings.TrimPrefix(errClass(c.Err.Error()), "loadPackage I: loadLocalPackage I: "), 60))
+			if strings.Contains(c.Err.Error(), "listRequest is not supported on a method") {
+				sig = sigListRequest
+			}
+			res.Fail(vh.Failure{Case: caseNo, Stream: "decl", Sig: sig, Clause: "every package within the documented language is accepted and links", Input: in, Got: c.Err.Error()})
+			checkPositions(res, caseNo, "decl", "declaration "+d.Name, cmpb.Positions(c.Err), d.Files, d.Main, in)
 		default:
 			res.Count("decl_ok")
 			corpus = append(corpus, d.Files)
